@@ -222,4 +222,7 @@ def run(chk, prog):
     exp = ("call", ("attr", ("attr", SELF, "p"), "importance"), (P("key"), merged, ("attr", SELF, "args")), ())
     chk.require(r.ret == exp, "CHM-LEFTBIAS", "Target.importance", "observations dominate the merge: particles satisfy the target's constraints", derived=show(r.ret)[:200], expected=show(exp), where=f"{T.module.rel}:{T.methods['importance'].lineno}")
     sig_variadic(chk, prog, [("Distribution", "distributions/distribution.py"), ("Algorithm", SP), ("SMCAlgorithm", SMC)])
+    # a Marginal used as a proposal contributes its random_weighted weight to every particle weight (C25's obligations on Marginal.random_weighted)
+    from ._share import take
+    take(chk, prog, "C25", lambda o: o["instance"].startswith("Marginal.random_weighted") and "returned-weight" not in o["instance"], "Marginal.random_weighted obligations (from C25)", 4)
     chk.explanation = "linear forms of all particle log-weights, pairing of constraints with proposal densities, retained-particle convention, selection polarity"
